@@ -111,12 +111,20 @@ def e2e_scenario(bins, idx, ntargets, rng, kinds=None, failing=False):
                     merged.append(a.pop(0))
                 else:
                     merged.append(b.pop(0))
-            # in a failing scenario the last target exits non-zero after writing everything (it still ran to completion)
+            # in a failing scenario the last target exits non-zero right after every sibling has ended: the siblings ran
+            # to completion, but megabytes of their output may still be queued for the compressor at that moment
             is_failing = failing and t is targets[-1]
             if is_failing:
-                merged.insert(0, {"op": "sleep", "ms": 50})
+                merged.append({"op": "wait", "tasks": [["build", o["path"], "ended"] for o in targets[:-1]], "timeout_ms": 60000})
             merged.append({"op": "exit", "code": 3 if is_failing else 0})
             fx.add_cmd(t["path"], "build", merged, ext=".sh")
+        for t in targets:
+            path, tdir, key = fx.cmd_files[(t["path"], "build")]
+            with open(os.path.join(fx.hdir, "scripts", key + ".json")) as fh:
+                sc = json.load(fh)
+            sc["steps"] = runlib._resolve_steps(fx, {}, sc["steps"])
+            with open(os.path.join(fx.hdir, "scripts", key + ".json"), "w") as fh:
+                json.dump(sc, fh)
         fx.git_init()
         res = fx.monorail(["run", "-c", "build"], timeout=240)
         tasks = []
@@ -243,7 +251,7 @@ def run(pid, tier):
             return e2e_scenario(bins, i, 2, rr, kinds=["short_then_long"])
         if i in (3, 4):
             # a group in which one task fails while megabytes of output are still queued for the compressor
-            return e2e_scenario(bins, i, 6 if i == 3 else 3, rr, kinds=["megabytes_text", "big_incompressible", "text"], failing=True)
+            return e2e_scenario(bins, i, 6 if i == 3 else 3, rr, kinds=["megabytes_text", "big_incompressible"], failing=True)
         return e2e_scenario(bins, i, sizes[i % len(sizes)], rr)
     with ThreadPoolExecutor(max_workers=6) as ex:
         e2e = list(ex.map(one, range(ne)))
